@@ -394,6 +394,9 @@ impl Prop for C03 {
         let mut out = Vec::new();
         for o in &ops {
             let text = s_upd(o);
+            if std::env::var("KVERIF_C03_TRACE").is_ok() {
+                eprintln!("--- before: {}\n--- op: {}", canon_dataset(&db), text.replace('\n', " "));
+            }
             match db.execute_update(&text) {
                 Ok(s) => out.push(format!("ok:{},{}:{}", s.inserted_quads, s.deleted_quads, fnv(&canon_dataset(&db)))),
                 Err(_) => out.push(format!("rej:{}", fnv(&canon_dataset(&db)))),
